@@ -12,7 +12,7 @@
    (Machine.poll_fut) and the automaton allows (h_bad). *)
 From Coq Require Import List NArith Bool Arith.
 From Crux Require Import Timer.Machine Timer.Spec Timer.SpecProofs Timer.SpecWeak Timer.MachineInv Timer.MachineProofs
-  Timer.Legacy Timer.LegacyProofs.
+  Timer.Legacy Timer.LegacyProofs Timer.Mixed Timer.MixedProofs.
 Import ListNotations.
 
 (* ------------------------------------------------------------------------------------------ *)
@@ -181,6 +181,14 @@ Proof. intros b xs os H. exact (lok_ids_nodup b xs [] os H (NoDup_nil N)). Qed.
 Theorem C18_legacy_at_most_one_outcome : forall b xs os, lok b [] xs os = true ->
   forall i, count_for i (levents_of os) <= 1.
 Proof. intros b xs os H i. pose proof (lok_one_outcome b xs [] os H i) as E. unfold lbudget in E. destruct i; exact E. Qed.
+
+(* ------------------------------------------------------------------------------------------ *)
+(* (4) "an id no other timer in the PROCESS has": timers started through any interleaving of the
+   entry points (command API in a direct Command, command API under Core, legacy capability API)
+   draw from one counter, so all ids of a process run are pairwise distinct (below 2^64 timers) *)
+Theorem C18_process_wide_unique_ids : forall c0 apis, (N.of_nat (length apis) <= USIZE)%N ->
+  C18_ok_mixed (mixed_ids c0 apis) = true /\ length (mixed_ids c0 apis) = length apis.
+Proof. exact mixed_ids_unique. Qed.
 
 (* non-vacuity: two timers, one cleared while pending (Clear sent, answered, Cleared), one fired
    and cleared before it next ran (Completed, no clear) *)
